@@ -15,6 +15,10 @@ def run(prog, rep, tier):
     r = r_tables.z1(prog)
     apply(rep, "Z1", "named constants round-trip through the vocabulary", (r[0], r[1]), 20)
     rep.extra["Z1_constants"] = r[2]
+    import r_pure
+    q = r_pure.q1(prog)
+    apply(rep, "Q1", "constant domains (shared singletons that render every constant) carry no mutable members or written statics",
+          ([i for i in q[0] if i[0].startswith(("Q1i:", "Q1ii"))], [f for f in q[1] if f["key"].startswith(("Q1i:", "Q1ii"))]), 2)
     apply(rep, "Z2", "escape tables of writer and reader agree", r_tables.z2(prog), 12)
     apply(rep, "Z3", "hex fields are zero filled", r_tables.z3(prog), 2)
     maybe_mutants("C20", rep, tier)
